@@ -46,6 +46,7 @@ DEFAULT_CFG = {
     'init_all': False,      # C02: every local initialised at function top
     'directives': 0,        # percent of loops carrying a set_loop_options directive (C03)
     'def_extras': 25,       # percent of nested defs with a default-value expression / decorator
+    'unusual': 0,           # weight of 'unusual literal' expression forms (C17)
 }
 
 
@@ -178,8 +179,27 @@ class Gen(object):
         kinds += ['fncall', 'fncall']
       if cfg['unbound_reads'] and env.maybe and env.trydepth == 0 and not cfg['pure']:
         kinds += ['maybe']
+    if cfg['unusual'] and depth < 2:
+      kinds += ['unusual'] * cfg['unusual']
     k = self.choice(kinds)
     e = lambda: self.expr(env, depth + 1, effects)
+    if k == 'unusual':
+      self.note('unusual_literal')
+      forms = [
+          '(-%s)', '(- -%s)', '(+%s)', '(~%s)', '((-2) ** 2 + %s)', '(%s // 2)', 'int(%s / 2)', '((%s & 7) << 1)', '(%s | 1)', '(%s ^ 2)',
+          'len(f"{(%s)!r:>{3}}")', "len(f'{(%s):{\"0\"}>4}')", 'len(f"{f\'{(%s)}\'}")', 'len(f"{(%s)}{{}}")', 'len(f"{(%s)=}")',
+          '(1, %s, 3)[-1]', '[1, %s, 3][0:2][0]', '{(1, 2): %s}[1, 2]', '[*range(3), *[%s]][1]', '(lambda *z: len(z))(*[1, %s])',
+          '[%s, 2, 3][::-1][0]', 'l[1:][0 * %s]', "{**{'a': 1}, 'b': %s}['b']", '(%s if ... is Ellipsis else 0)', "(len(b'ab') + %s)",
+          'int((1+2j).real + %s)', '(int(1e1) + 0x10 + 1_000 - %s)', "(len('a\\'b\"c\\n') + %s)", '(len("""x""") + %s)',
+          '(lambda z=(lambda: %s): z())()', '(%s,)[0]', '[[%s]][0][0]', '(%s)', 'max(*(%s, 1))', 'dict(a=%s)["a"]',
+          '(0 if (%s,)[0] is None else 1)', '(%s).__class__(3)', 'abs(-%s - 1)', 'round(%s + 0.5)', '(1 < %s < 9 != 4)',
+      ]
+      if not env.has_o:
+        forms = [f for f in forms if 'l[1:]' not in f]
+      if env.fn_depth == 0 and not cfg['pure'] and env.trydepth == 0:
+        forms.append('(wz%d := %%s)' % self.newk())
+      form = self.choice(forms)
+      return form % tuple(e() for _ in range(form.count('%s')))
     if k == 'const':
       return str(self.integer(-2, 5))
     if k == 'var':
@@ -366,8 +386,14 @@ class Gen(object):
       if cfg['pure']:
         form = self.choice(['o.x = %s', "d['k'] = %s", 'o.y = %s'])
       else:
-        form = self.choice(['o.x = %s', 'o.x += %s', "d['k'] = %s", "d['k'] -= %s", 'l[0] = %s', 'o.z = %s'])
+        form = self.choice(['o.x = %s', 'o.x += %s', "d['k'] = %s", "d['k'] -= %s", 'l[0] = %s', 'o.z = %s', 'l[-1] = %s', 'setdel'])
       self.note('composite_write')
+      if form == 'setdel':
+        # a key that exists only between the two statements: subscript deletion stays total
+        self.note('subscript_delete')
+        lines.append("%sd['z'] = %s" % (sp, self.expr(env)))
+        lines.append("%sdel d['z']" % sp)
+        return env
       lines.append(sp + form % self.expr(env))
       return env
     if k == 'setkey':
